@@ -14,6 +14,7 @@ R8 = 'R8-decode-loop->frame contract (Kani K-DECODE-FRAME)'
 PARTS = HEAD + consts('LEAD_SIZE', 'INDEX_HEADER_SIZE', 'INDEX_ENTRY_SIZE', 'HEADER_MAGIC', 'RPM_MAGIC') + io_head() + header_types() + [
     Prelude('hdrspec.rs'),
     Prelude('read.rs'),
+    Prelude('stdspecs.rs'),
     Prelude('decode.rs'),
     Prelude('leaves.rs'),
     Decl(LEAD, 'struct', 'Lead'),
@@ -325,7 +326,7 @@ pub fn canary_c01_parse_header(ih: IndexHeader, bytes: &[u8])
 
 OBLIGATIONS = {
     'Header::parse': ['C01', 'C14', 'C04'],
-    'Header::parse_header': ['C01', 'C14', 'C04'],
+    'Header::parse_header': ['C01', 'C14', 'C04', 'C05'],
     'Header::padding_required': ['C01'],
     'Header::parse_signature': ['C01', 'C14', 'C04'],
     'PackageMetadata::parse': ['C01', 'C14', 'C04'],
@@ -334,8 +335,10 @@ OBLIGATIONS = {
     'lemma_entry_bytes': ['C01'],
     'lemma_intro_bytes': ['C01'],
     'lemma_lead_bytes': ['C01'],
-    'lemma_be32_dec32': ['C01'],
-    'lemma_be16_dec16': ['C01'],
+    'lemma_be32_dec32': ['C01', 'C05'],
+    'lemma_be16_dec16': ['C01', 'C05'],
+    'lemma_strs_step': ['C05', 'C01'],
+    'lemma_first_nul': ['C05', 'C01'],
     'lemma_ser_entries_len': ['C01'],
     'lemma_ser_header_len': ['C01'],
 }
